@@ -61,6 +61,32 @@ def _wrong_literal(schema, ty):
     return ("obj", [("notAField", ("int", 1))])
 
 
+def _wrong_literal_variants(schema, ty):
+    """Several literals of different kinds, none acceptable for input type ty: [(label, literal)]."""
+    inner = ty[1] if is_nn(ty) else ty
+    if inner[0] == "L":
+        return [(lab, ("list", [bad])) for lab, bad in _wrong_literal_variants(schema, inner[1])[:2]]
+    name = inner[1]
+    if name == "Int":
+        return [("float", ("float", 1.5)), ("numeric-string", ("str", "12")), ("bool", ("bool", True)), ("too-big", ("int", 2 ** 31))]
+    if name == "Float":
+        return [("bool", ("bool", False)), ("enum-name", ("enum", "abc"))]
+    if name == "String":
+        return [("enum-name", ("enum", "abc")), ("bool", ("bool", True)), ("float", ("float", 0.5))]
+    if name == "Boolean":
+        return [("string-true", ("str", "true")), ("enum-name", ("enum", "TRUE")), ("zero", ("int", 0))]
+    if name == "ID":
+        return [("float", ("float", 1.5)), ("enum-name", ("enum", "abc"))]
+    td = schema.types[name]
+    if td.kind == "ENUM":
+        v0 = td.names()[0]
+        return [("string-spelling-a-value", ("str", v0)), ("int", ("int", 1)), ("bool", ("bool", True)),
+                ("wrong-case", ("enum", v0.swapcase() if v0.swapcase() not in td.names() else "NOT_A_VALUE"))]
+    if td.kind == "SCALAR":
+        return [("enum-name", ("enum", "abc"))]
+    return [("int-for-object", ("int", 1)), ("string-for-object", ("str", "{}"))]
+
+
 def _value_sites(schema, ty, lit, path=()):
     """Positions inside a literal where a wrong nested value can be planted: yields (path, type)."""
     if lit[0] in ("var", "null"):
@@ -157,6 +183,19 @@ def enumerate_rewrites(schema, doc):
             n = node_at(d2, idx)
             n[4].sels.insert(n[5], Field("nopeField"))
         add("fields-exist", site, ins_unknown)
+
+        def ins_unknown_meta(d2, idx=idx):
+            # names beginning with two underscores are reserved for introspection: only the three
+            # meta-fields exist
+            n = node_at(d2, idx)
+            n[4].sels.insert(n[5], Field("__nopeMeta"))
+        add("fields-exist", site + "/reserved-name", ins_unknown_meta)
+        if not (ctx == "op" and getattr(owner, "op", None) == "query") and parent != schema.query:
+            def ins_schema_below_root(d2, idx=idx):
+                # __schema / __type are fields of the query root type only
+                n = node_at(d2, idx)
+                n[4].sels.insert(n[5], Field("__schema", None, [], [], [Field("queryType", None, [], [], [Field("name")])]))
+            add("fields-exist", site + "/__schema-not-on-query-root", ins_schema_below_root)
         if s.kind == "field" and not s.name.startswith("__") and pk in ("OBJECT", "INTERFACE"):
             fd = schema.fields_of(parent).get(s.name)
             if fd is None:
@@ -205,6 +244,11 @@ def enumerate_rewrites(schema, doc):
                             n = node_at(d2, idx)[0]
                             n.args = [(a, _replace_at(v, vpath, _wrong_literal(schema, vty)) if a == an else v) for a, v in n.args]
                         add("value-of-correct-type", site + ("/nested-value" if vpath else "/argument"), bad_val)
+                        for lab, wrong in _wrong_literal_variants(schema, vty):
+                            def bad_val2(d2, idx=idx, an=an, vpath=vpath, wrong=wrong):
+                                n = node_at(d2, idx)[0]
+                                n.args = [(a, _replace_at(v, vpath, wrong) if a == an else v) for a, v in n.args]
+                            add("value-of-correct-type", site + ("/nested-value/" if vpath else "/argument/") + lab, bad_val2)
                         cur = _get_at(given[an], vpath)
                         if cur[0] == "obj" and cur[1]:
                             def dup_field(d2, idx=idx, an=an, vpath=vpath):
